@@ -57,7 +57,7 @@ inductive Op where
   | createBucket (b : Bytes) (acl : CannedAcl) (own : Option Ownership) (lock : Bool) (validName : Bool)
   | deleteBucket (b : Bytes)
   | headBucket (b : Bytes)
-  | listBuckets
+  | listBuckets (pfx token : Bytes) (max : Nat)
   | putBucketPolicy (b : Bytes) (p : Policy) (valid : Bool)
   | getBucketPolicy (b : Bytes)
   | deleteBucketPolicy (b : Bytes)
@@ -149,6 +149,16 @@ def guarded (chk : Option String) (s : State) (k : Unit → State × Resp) : Sta
   match chk with
   | some code => (s, errR code)
   | none => k ()
+
+/-- the loop of posix.ListBuckets over the (name-sorted) buckets -/
+def listBucketsLoop (w : Who) (pfx token : Bytes) (max : Nat) : List Bucket → List Bytes → List Bytes × Bytes
+  | [], acc => (acc, [])
+  | bk :: rest, acc =>
+    if !pfx.isPrefixOf bk.name then listBucketsLoop w pfx token max rest acc else
+    if acc.length == max then (acc, acc.getLast?.getD []) else
+    if !bytesLt token bk.name then listBucketsLoop w pfx token max rest acc else
+    if w.role == .admin || bk.acl.owner == w.access then listBucketsLoop w pfx token max rest (acc ++ [bk.name])
+    else listBucketsLoop w pfx token max rest acc
 
 def cannedGrantees (owner : Bytes) : CannedAcl → List Grantee
   | .none | .private_ => [⟨owner, .fullControl, false⟩]
@@ -382,9 +392,12 @@ def handle (cfg : Cfg) (s : State) (w : Who) (now : Int) : Op → State × Resp
     else (removeBucket s b, okR)
   | .headBucket b => withBucket s b fun bk =>
     guarded (verifyAccess cfg bk w .read actListBucket []) s fun _ => (s, okR)
-  | .listBuckets =>
-    let mine := s.buckets.filter fun bk => w.role == .admin || bk.acl.owner == w.access
-    (s, okR [("buckets", ",".intercalate (mine.map (hx ·.name)))])
+  | .listBuckets pfx token max =>
+    -- posix.ListBuckets: names ascending, prefix filter, stop when the page is full (the token
+    -- is the last name on the page), skip names up to the continuation token, owner filter
+    if max < 1 || max > 10000 then (s, errR "InvalidArgument") else
+    let (page, tok) := listBucketsLoop w pfx token max s.buckets []
+    (s, okR [("buckets", ",".intercalate (page.map hx)), ("token", hx tok)])
   | .putBucketPolicy b p valid => withBucket s b fun bk =>
     guarded (verifyAccess cfg bk w .write actPutBucketPolicy []) s fun _ =>
     if !valid then (s, errR "MalformedPolicy") else
